@@ -87,8 +87,9 @@ def action_rule(rep, prog, oks):
                 names = decode.field_names(prog, cell) if isinstance(cell, AdtVal) else []
                 if "num_messages" in names:
                     nm = cell.fields[names.index("num_messages")]
-                    if not (isinstance(nm, IntVal) and nm.is_const() and nm.lo == 1):
-                        bad_cnt = "message count changes by %r instead of exactly 1" % (nm,)
+                    base = 0 if (vac and vac[0]) else 1000      # a present record starts at the representative count 1000, a new one at 0
+                    if not (isinstance(nm, IntVal) and nm.is_const() and nm.lo == base + 1):
+                        bad_cnt = "message count of a %s record goes from %d to %r instead of %d" % ("new" if base == 0 else "present", base, nm, base + 1)
                 else:
                     bad_cnt = "record has no num_messages field (anchor)"
         if counted:
